@@ -42,6 +42,7 @@ func runC16(c *eng.Ctx) {
 	lineTagsResolvedBeforeTheBuilder(c)
 	namespaceFallbackIsReachable(c)
 	shardIteratorBoundedByTheRowCount(c)
+	measurementEndsAtTheFirstSeparator(c)
 	p := c.P
 	familyGroupContainsItsFirstRow(c)
 	tagsHashIsStateless(c)
